@@ -116,7 +116,27 @@ def materialised_oracle(ctx, tables, inner, outer, outs):
                              payload=SqlCase(tables, outer).payload())
 
 
+CORPUS = [
+    # minimised from seeded changes
+    'SELECT s, s IN (SELECT s FROM #u ORDER BY i DESC LIMIT 2) AS m FROM #t',
+    'SELECT s FROM #t WHERE s NOT IN (SELECT s FROM #u ORDER BY i LIMIT 1)',
+    'SELECT s FROM #t WHERE i IN (SELECT i FROM #u WHERE i > 100)',
+    'SELECT a FROM (SELECT s AS a, t AS b, i FROM #t) ORDER BY b DESC, i',
+    'SELECT a, count(*) AS n FROM (SELECT s AS a, t AS b FROM #t) GROUP BY a, b ORDER BY a, n',
+    'SELECT * FROM (SELECT t, s FROM (SELECT s, t, i FROM #t WHERE i > 1))',
+]
+
+
+def corpus_layer(ctx):
+    t = impl.HTable('t', [('i', int), ('s', str), ('t', str)], [(1, 'a', 'x'), (2, 'b', 'y'), (3, 'c', 'x'), (4, 'a', 'z'), (5, 'd', 'y')])
+    u = impl.HTable('u', [('i', int), ('s', str)], [(1, 'a'), (9, 'b'), (5, 'c'), (7, 'd'), (3, 'e')])
+    for text in CORPUS:
+        SqlCase([t, u], text, name='corpus').check(ctx)
+        ctx.count('corpus')
+
+
 def run(ctx):
+    corpus_layer(ctx)
     rng = ctx.rng
     ncases = 30000 if ctx.thorough() else 300
     t = u = None
